@@ -520,6 +520,15 @@ func (k *rw) expr(e ast.Expr) ast.Expr {
 		k.funcType(e)
 		return e
 	case *ast.CallExpr:
+		if se, ok := e.Fun.(*ast.SelectorExpr); ok {
+			if id, ok := se.X.(*ast.Ident); ok {
+				if pn, ok := k.p.Info.Uses[id].(*types.PkgName); ok && pn.Imported().Path() == "reflect" {
+					// reflect.Select / reflect.ValueOf(ch).Recv() … operate on real channels: not mappable
+					k.fail(e, "channel operations through package reflect")
+					return e
+				}
+			}
+		}
 		if k.isBuiltin(e.Fun, "make") && len(e.Args) >= 1 {
 			if ct, ok := e.Args[0].(*ast.ChanType); ok {
 				name := k.ctxName
